@@ -2,5 +2,5 @@ import Klong.Model.C15
 open Klong
 
 def main (_args : List String) : IO UInt32 := do
-  Wire.loop (← IO.getStdin) (← IO.getStdout) C15.handle C15.init
+  Wire.loop (← IO.getStdin) (← IO.getStdout) C15.handle C15.dinit
   return 0
